@@ -181,6 +181,15 @@ fn shape_arg_cases<F: MathFunction + Function<Trace = VmTrace> + Clone>(cx: &mut
     let g3 = [Grad::from(1.0); 3];
     emit("shape-grad-missing", "err", vharness::catch(AssertUnwindSafe(|| ge.eval(&gt, &g3, &g3, &g3).map(|_| ()).map_err(|e| format!("{e}")))));
     emit("shape-grad-bound", "ok", vharness::catch(AssertUnwindSafe(|| ge.eval_with_vars(&gt, &g3, &g3, &g3, &with).map(|_| ()).map_err(|e| format!("{e}")))));
+    // the same bulk evaluators, now on a shape with fewer variables and another sample count (well-formed calls)
+    let small = Shape::<F>::new(&ctx, y).unwrap();
+    let ft2 = small.ez_float_slice_tape();
+    let gt2 = small.ez_grad_slice_tape();
+    let a5 = [0.5f32; 5];
+    let g2 = [Grad::from(1.0); 2];
+    emit("shape-float-reuse-fewer-vars", "ok", vharness::catch(AssertUnwindSafe(|| fe.eval(&ft2, &a5, &a5, &a5).map(|_| ()).map_err(|e| format!("{e}")))));
+    emit("shape-grad-reuse-fewer-vars", "ok", vharness::catch(AssertUnwindSafe(|| ge.eval(&gt2, &g2, &g2, &g2).map(|_| ()).map_err(|e| format!("{e}")))));
+    emit("shape-float-reuse-more-vars", "ok", vharness::catch(AssertUnwindSafe(|| fe.eval_with_vars(&ft, &a2, &a2, &a2, &with).map(|_| ()).map_err(|e| format!("{e}")))));
 }
 
 /// compositions over the alphabet of spec/Interval.tla on huge boxes (candidate crash paths)
@@ -276,6 +285,44 @@ fn narrow_cases<F: Function<Trace = VmTrace>>(cx: &mut Cx, backend: &str, make: 
     }
 }
 
+/// an infinite immediate added to / subtracted from / multiplied with an intermediate that overflows to an
+/// infinity of either sign, followed by every unary operator (out-of-line calls in the JIT construct intervals)
+fn inf_imm_cases<F: Function<Trace = VmTrace>>(cx: &mut Cx, backend: &str, make: &dyn Fn(&Prog) -> Option<F>) {
+    use vharness::tapes::{GOp, UNARY};
+    let base = json!({"backend": backend, "tag": "inf-imm", "nout": 1});
+    for tail in UNARY {
+        for (class, name) in [(4u8, "Add"), (4, "Sub"), (5, "Sub"), (4, "Mul"), (4, "Div"), (5, "Div"), (4, "Min"), (4, "Max")] {
+            for imm in [f32::INFINITY, f32::NEG_INFINITY] {
+                for negate in [false, true] {
+                    // slots: 0 = x, 1 = x*x, 2 = +-(x*x), 3 = op(2, imm), 4 = tail(3)
+                    let mut ssa = vec![GOp::new(0, "Output", -1, 4, 0, 0), GOp::new(3, tail, 4, 3, -1, 0), GOp::new(class, name, 3, 2, -1, bits(imm))];
+                    ssa.push(if negate { GOp::new(3, "Neg", 2, 1, -1, 0) } else { GOp::new(3, "Abs", 2, 1, -1, 0) });
+                    ssa.push(GOp::new(3, "Square", 1, 0, -1, 0));
+                    ssa.push(GOp::new(1, "Input", 0, 0, -1, 0));
+                    let p = Prog { ssa, nvars: 1 };
+                    let Some(f) = make(&p) else { continue };
+                    for bx in [Interval::new(1.0e19, 1.0e20), Interval::new(-1.0, 1.0e20), Interval::new(2.0, 3.0)] {
+                        let t = interval_trace(&f, &[bx]);
+                        if t.panic || cx.id % 13 == 0 {
+                            let mut j = base.clone();
+                            j["ev"] = json!("eval");
+                            j["id"] = json!(cx.id);
+                            j["kind"] = json!("interval");
+                            j["panic"] = json!(t.panic);
+                            j["err"] = json!(t.err);
+                            j["out"] = json!(t.out.iter().map(ibits).collect::<Vec<_>>());
+                            j["in"] = json!([ibits(&bx)]);
+                            j["ssa"] = if t.panic { ops_json(&p.ssa) } else { json!([]) };
+                            writeln!(cx.w, "{j}").unwrap();
+                        }
+                        cx.id += 1;
+                    }
+                }
+            }
+        }
+    }
+}
+
 fn main() {
     let args: Vec<String> = std::env::args().collect();
     let which = args[1].clone();
@@ -315,6 +362,11 @@ fn main() {
     {
         use std::io::Write as _;
         cx.w.flush().unwrap();
+    }
+    if which == "vm" {
+        inf_imm_cases::<VmFunction>(&mut cx, "vm", &|p| vm_fn::<255>(p).ok());
+    } else {
+        inf_imm_cases::<JitFunction>(&mut cx, "jit", &|p| jit_fn(p).ok());
     }
     if which == "vm" {
         narrow_cases::<VmFunction>(&mut cx, "vm", &|p| vm_fn::<255>(p).ok(), quick);
